@@ -181,8 +181,18 @@ EncodeDecodeA == \E dst \in Reg, src \in Full :
               Call("encode_decode", dst, <<src>>, Ok(reg[src]))
 (* hand-made bytes: the encoding of a register, structurally mutated at one position,
    given to the decoder *)
+(* (a corrupted compressed payload has no wire term: its bytes are whatever the corruption left) *)
+RECURSIVE HasCorrupted(_)
+HasCorrupted(e) ==
+  CASE e[1] = "comp" -> e[4] = "bad" \/ HasCorrupted(e[3])
+    [] e[1] = "enc"  -> e[6] = "ok" /\ HasCorrupted(e[5])
+    [] e[1] = "node" -> HasCorrupted(e[2]) \/ \E a \in e[3] : HasCorrupted(a)
+    [] e[1] = "assn" -> HasCorrupted(e[2]) \/ HasCorrupted(e[3])
+    [] e[1] = "wrap" -> HasCorrupted(e[2])
+    [] OTHER -> FALSE
 DecodeWireA == \E dst \in Reg, src \in Full : \E w \in {Tagged(reg[src])} \cup MutTagged(Tagged(reg[src])) :
-              Call("decode_wire", dst, <<w>>, DecodeTagged(w))
+              /\ ~HasCorrupted(reg[src])
+              /\ Call("decode_wire", dst, <<w>>, DecodeTagged(w))
 (* ... mutated at two positions *)
 DecodeWire2A == \E dst \in Reg, src \in Full : \E w1 \in MutTagged(Tagged(reg[src])) :
               w1[1] = "tag" /\ w1[2] = TagEnvelope /\ \E w \in MutTagged(w1) :
@@ -400,8 +410,9 @@ BuildRequestA == \E dst \in Reg, f \in {<<"k", 1>>, <<"n", "f">>}, id \in 1..2, 
       /\ Len(ps) <= 1 /\ (Len(ps) = 1 => ps[1][1] \in {<<"k", 1>>, <<"n", "p">>})
       /\ Call("request", dst, <<f, ps, id, note, d>>, Ok(RequestEnv(f, PVals(ps), id, note, d)))
 BuildResponseA == \E dst \in Reg, variant \in {"success", "failure", "early"}, id \in 1..2 :
-      \E payload \in {reg[r] : r \in Full} \cup {KV(KvOk), KV(KvUnknown)} :
-      Call("response", dst, <<variant, id, payload>>, Ok(ResponseEnv(variant, id, payload)))
+      \E payload \in {<<"reg", r>> : r \in Full} \cup {KV(KvOk), KV(KvUnknown)} :
+      Call("response", dst, <<variant, id, payload>>,
+           Ok(ResponseEnv(variant, id, IF payload[1] = "reg" THEN reg[payload[2]] ELSE payload)))
 BuildEventA == \E dst \in Reg, rc \in Full, id \in {1}, note \in Notes, d \in Dates :
       Call("event", dst, <<rc, id, note, d>>, Ok(EventEnv(reg[rc], id, note, d)))
 (* one part added, removed or retagged *)
@@ -424,7 +435,7 @@ Malformed(e, kind) ==
     [] kind = "drop_content"   -> dropPred(KvContent)
     [] kind = "second_content" -> AddAssertion(e, KV(KvContent), Str("x"))
     [] kind = "salted_body"    -> LET B == AssertionsWithPredicate(e, KV(KvBody)) IN
-                                  IF B = {} THEN e
+                                  IF Cardinality(B) # 1 THEN e   \* (which of several bodies would be salted is not fixed)
                                   ELSE Val(AddAssertionEnvSalted(dropPred(KvBody), CHOOSE b \in B : TRUE, <<FreshId, 1>>))
 MalformA == \E dst \in Reg, src \in Full, kind \in MalformKinds :
       /\ Malformed(reg[src], kind) # reg[src]
